@@ -54,8 +54,8 @@ impl DataItem for DateTimeItem {
         let date = self.0;
         let duration = other.as_any().downcast_ref::<DurationItem>()?.get_duration();
         match operation_type {
-            OperationType::Add => Some(Rc::new(DateTimeItem(date + duration, self.1.clone()))),
-            OperationType::Sub => Some(Rc::new(DateTimeItem(date - duration, self.1.clone()))),
+            OperationType::Add => Some(Rc::new(DateTimeItem(date.checked_add_signed(duration)?, self.1.clone()))),
+            OperationType::Sub => Some(Rc::new(DateTimeItem(date.checked_sub_signed(duration)?, self.1.clone()))),
             _ => None
         }
     }
